@@ -21,11 +21,89 @@ thread_local! {
 
 pub struct CountingAlloc;
 
+/// Blocks allocated while a library call was running, so that freeing them later — inside or
+/// outside a library call (items handed to the harness are dropped outside) — is credited, and
+/// freeing harness memory is not. Open addressing, linear probing, tombstones; no allocation.
+const SLOTS: usize = 1 << 12;
+const EMPTY: usize = 0;
+const TOMB: usize = 1;
+
+struct Table {
+    slots: std::cell::UnsafeCell<[(usize, usize); SLOTS]>,
+}
+
+thread_local! {
+    static TABLE: Table = const { Table { slots: std::cell::UnsafeCell::new([(EMPTY, 0); SLOTS]) } };
+    static LIVE: Cell<usize> = const { Cell::new(0) };
+}
+
 #[inline]
-fn on_alloc(size: usize) {
+fn slot_of(p: usize) -> usize {
+    (p >> 4).wrapping_mul(0x9E3779B97F4A7C15) >> (64 - 12)
+}
+
+fn table_insert(p: usize, size: usize) -> bool {
+    TABLE
+        .try_with(|t| {
+            // SAFETY: thread-local, and the allocator hooks never re-enter while this reference is alive
+            let slots = unsafe { &mut *t.slots.get() };
+            if LIVE.with(|l| l.get()) >= SLOTS / 2 {
+                return false;
+            }
+            let mut i = slot_of(p);
+            loop {
+                if slots[i].0 == EMPTY || slots[i].0 == TOMB {
+                    slots[i] = (p, size);
+                    LIVE.with(|l| l.set(l.get() + 1));
+                    return true;
+                }
+                i = (i + 1) & (SLOTS - 1);
+            }
+        })
+        .unwrap_or(false)
+}
+
+fn table_remove(p: usize) -> Option<usize> {
+    TABLE
+        .try_with(|t| {
+            let slots = unsafe { &mut *t.slots.get() };
+            let mut i = slot_of(p);
+            let mut probes = 0;
+            loop {
+                if slots[i].0 == EMPTY || probes >= SLOTS {
+                    return None;
+                }
+                if slots[i].0 == p {
+                    let s = slots[i].1;
+                    slots[i] = (TOMB, 0);
+                    LIVE.with(|l| l.set(l.get() - 1));
+                    return Some(s);
+                }
+                i = (i + 1) & (SLOTS - 1);
+                probes += 1;
+            }
+        })
+        .unwrap_or(None)
+}
+
+fn table_clear() {
+    let _ = TABLE.try_with(|t| {
+        let slots = unsafe { &mut *t.slots.get() };
+        for s in slots.iter_mut() {
+            *s = (EMPTY, 0);
+        }
+    });
+    LIVE.with(|l| l.set(0));
+}
+
+#[inline]
+fn on_alloc(p: *mut u8, size: usize) {
     // `try_with`: during thread teardown the cells may be gone
     let _ = ARMED.try_with(|a| {
         if a.get() {
+            // a block the table cannot hold is counted as growth that is never credited back
+            // (over-estimates; the table is sized so that this does not happen in practice)
+            let _ = table_insert(p as usize, size);
             let _ = CUR.try_with(|c| {
                 let v = c.get() + size as i64;
                 c.set(v);
@@ -46,10 +124,12 @@ fn on_alloc(size: usize) {
 }
 
 #[inline]
-fn on_dealloc(size: usize) {
-    let _ = ARMED.try_with(|a| {
-        if a.get() {
-            let _ = CUR.try_with(|c| c.set(c.get() - size as i64));
+fn on_dealloc(p: *mut u8) {
+    let _ = MEASURE.try_with(|m| {
+        if m.get() {
+            if let Some(size) = table_remove(p as usize) {
+                let _ = CUR.try_with(|c| c.set(c.get() - size as i64));
+            }
         }
     });
 }
@@ -66,7 +146,7 @@ unsafe impl GlobalAlloc for CountingAlloc {
         }
         let p = System.alloc(layout);
         if !p.is_null() {
-            on_alloc(layout.size());
+            on_alloc(p, layout.size());
         }
         p
     }
@@ -76,12 +156,12 @@ unsafe impl GlobalAlloc for CountingAlloc {
         }
         let p = System.alloc_zeroed(layout);
         if !p.is_null() {
-            on_alloc(layout.size());
+            on_alloc(p, layout.size());
         }
         p
     }
     unsafe fn dealloc(&self, ptr: *mut u8, layout: Layout) {
-        on_dealloc(layout.size());
+        on_dealloc(ptr);
         System.dealloc(ptr, layout)
     }
     unsafe fn realloc(&self, ptr: *mut u8, layout: Layout, new_size: usize) -> *mut u8 {
@@ -90,8 +170,8 @@ unsafe impl GlobalAlloc for CountingAlloc {
         }
         let p = System.realloc(ptr, layout, new_size);
         if !p.is_null() {
-            on_dealloc(layout.size());
-            on_alloc(new_size);
+            on_dealloc(ptr);
+            on_alloc(p, new_size);
         }
         p
     }
@@ -109,6 +189,7 @@ pub struct Usage {
 /// Starts a measurement on this thread: from now on, allocations made while a library call is
 /// running (between `enter` and `exit`) are accounted, relative to this instant.
 pub fn arm() {
+    table_clear();
     CUR.with(|c| c.set(0));
     PEAK.with(|c| c.set(0));
     MAXREQ.with(|c| c.set(0));
